@@ -366,6 +366,10 @@ def run_check(prop: str, tier: str, seed: int, jobs: int) -> int:
             return 2
     wall = time.time() - t0
     listed, unlisted = classify(prop, ctx.violations)
+    dump = os.environ.get("VERIF_DUMP_KEYS")  # development aid: every violation key seen (known and unlisted)
+    if dump:
+        with open(dump, "w") as f:
+            json.dump({k: v["count"] for k, v in sorted(ctx.violations.items())}, f, indent=1)
     seen_entries: set[str] = set()
     for ent, v in listed:
         if ent["key"] in seen_entries:
